@@ -31,7 +31,7 @@ NSHARDS = 16
 COUNTS = {'quick': (60, 1100), 'thorough': (1500, 40000)}      # per shard: valid files, hostile inputs
 TIMEOUT_S = {'quick': 400, 'thorough': 3300}
 # logical-clock budget, calibrated (see evidence keys max_steps_*): steps <= A * len + B
-BUDGET_A, BUDGET_B = 400, 3_000_000
+BUDGET_A, BUDGET_B = 1000, 5_000_000
 
 
 def plan(tier, seed):
